@@ -111,12 +111,12 @@ func PutVarUint(data []byte, val uint64) int {
 		data[0] = byte(val)
 		return 1
 	}
-	if val < 0xFFFF {
+	if val <= 0xFFFF {
 		data[0] = byte(0xfd)
 		binary.LittleEndian.PutUint16(data[1:], uint16(val))
 		return 3
 	}
-	if val < 0xFFFFFFFF {
+	if val <= 0xFFFFFFFF {
 		data[0] = byte(0xfe)
 		binary.LittleEndian.PutUint32(data[1:], uint32(val))
 		return 5
